@@ -362,6 +362,30 @@ Theorem C04_scan_without_reread_refuted :
 Proof. exact TouchScanProofs.scan_without_recheck_refuted. Qed.
 Print Assumptions C04_scan_without_reread_refuted.
 
+(* One whole round of the timeout scan (F24): entries of the queue whose message is no longer in
+   the in-flight set (stale) do not delay the others - every message that is in flight, has an
+   entry among the due ones and whose deadline (as it is NOW) has passed is re-queued by this
+   round; nothing else is.  Stated for the scan of the CURRENT source (it goes on after a failed
+   pop); the scan that left its loop there (before b9d247f) is refuted. *)
+From NSQV Require gen.CoreShape model.ScanRound proofs.ScanRoundProofs proofs.TouchScanSrc.
+Theorem C04_stale_entries_do_not_delay_the_round : forall t in_set current pq m,
+  ScanRound.all_due t pq -> In m (map ScanRound.e_id pq) -> in_set m = true -> (current m <= t)%Z ->
+  In m (ScanRound.round (TouchScanSrc.scan_skips_stale CoreShape.shape_Channel_processInFlightQueue) t in_set current pq).
+Proof. exact TouchScanSrc.source_due_messages_are_requeued. Qed.
+Print Assumptions C04_stale_entries_do_not_delay_the_round.
+
+Theorem C04_round_requeues_only_what_timed_out : forall skip t in_set current pq m,
+  In m (ScanRound.round skip t in_set current pq) -> in_set m = true /\ (current m <= t)%Z.
+Proof. exact ScanRoundProofs.only_due_messages_are_requeued. Qed.
+Print Assumptions C04_round_requeues_only_what_timed_out.
+
+Theorem C04_abandoning_round_refuted :
+  exists t in_set current pq m,
+    ScanRound.all_due t pq /\ In m (map ScanRound.e_id pq) /\ in_set m = true /\ (current m <= t)%Z /\
+    ~ In m (ScanRound.round false t in_set current pq).
+Proof. exact ScanRoundProofs.abandoning_round_refuted. Qed.
+Print Assumptions C04_abandoning_round_refuted.
+
 (* The model is tied to the CURRENT source: the order-of-effects facts about nsqd's core
    functions that the model assumes (proofs/CoreSrcDefs.v) hold of the statement skeletons
    regenerated from /repo on this run (gen/CoreShape.v). *)
